@@ -376,6 +376,8 @@ class Flow:
             if f.id == "zip":
                 return AV(tup=[a for a in args])
             tgt = prog.funcs.get(f.id)
+            if tgt is not None and self.cur and prog.shadowed(self.cur[-1], f.id):
+                tgt = None  # a callback parameter
             if tgt is not None and tgt.cls is None:
                 r = self.call_func(tgt, args, kw)
                 return EMPTY if self._returns_bool(tgt) else r
